@@ -28,7 +28,8 @@ def impl_solve_t(case):
     cls = scripted.make_class(fsic.BaseModel, case['nvars'], case['check'], case['endo'])
     n = case['n']
     span = list(range(2000, 2000 + n))
-    m = scripted.instantiate(cls, span, case['vals'], case['status'], case['iters'], case['scripts'])
+    m = scripted.instantiate(cls, span, case['vals'], case['status'], case['iters'], case['scripts'],
+                             lags=case.get('lags', 0), leads=case.get('leads', 0))
     o = case['opts']
     kw = dict(min_iter=o['min_iter'], max_iter=o['max_iter'], tol=lib.unhex(o['tol']), offset=o['offset'],
               failures=o['failures'], errors=o['errors'], catch_first_error=o['catch_first_error'])
